@@ -148,6 +148,16 @@ def check(ctx):
     ctx.instance('C15.R2', '%s returns the probe result from offset 0' % Model.qual(dfl), 'ok' if ok else 'VIOLATION', node=dfl, file=BER)
     if not ok:
         ctx.violation('C15.R2', BER, dfl, Model.qual(dfl), 'decode_full_length does not return skip_tag_length_contents(<the whole data>, 0) unchanged (a sliced or offset buffer makes the probe disagree with the decoder for long headers)', stmt='probe result')
+    # ---- R7: the probe itself, by bounded evaluation (sa/excmap.py evaluate_probe): every prefix of the identifier and length octets of definite-length TLVs in every
+    #      length form -> None, every longer prefix -> the total length.  When it is decisive the path-shape rules on how MissingDataError is constructed and mapped
+    #      are its fall-back only.
+    ctx.rule('C15.R7', 'the length probe evaluated on every prefix of definite-length TLVs (all tag and length forms): None while the header is incomplete, the total length afterwards')
+    pr_ok, pr_und, pr_bad, pr_why = excmap.evaluate_probe(dfl)
+    probe_decided = pr_und == 0 and pr_ok > 0
+    ctx.instance('C15.R7', '%s: %d (message, prefix) cases evaluated, %d undecided' % (Model.qual(dfl), pr_ok, pr_und), 'VIOLATION' if pr_bad else ('ok' if probe_decided else 'undecided'),
+                 pr_why or '', nontrivial=pr_ok > 0, node=dfl, file=BER)
+    if pr_bad:
+        ctx.violation('C15.R7', BER, dfl, Model.qual(dfl), pr_bad + ': the probe and the decoder disagree on where the message ends (or the probe answers before it can know)', stmt='probe evaluation')
     # MissingDataError class hierarchy and constructor positions
     ok = oob in mde.mro()
     ctx.instance('C15.R2', 'MissingDataError < OutOfByteDataError', 'ok' if ok else 'VIOLATION', node=mde.node, file=BER)
@@ -158,14 +168,14 @@ def check(ctx):
         raise AnalysisError('MissingDataError.__init__ vanished')
     pn = flow.param_names(init)[1:]
     dps = sem.paths(dl, positional=True)
-    if dps is None:
+    if dps is None and not probe_decided:
         raise AnalysisError('decode_length: too many paths')
-    rp = [p for p in dps if p.outcome[0] == 'raise' and p.outcome[1] == 'MissingDataError']
-    if not rp:
+    rp = [p for p in (dps or []) if p.outcome[0] == 'raise' and p.outcome[1] == 'MissingDataError']
+    if not rp and not probe_decided:
         raise AnalysisError('decode_length: no path raises MissingDataError')
     ok = True
     shown = None
-    for p in rp:
+    for p in (rp if not probe_decided else []):
         call = sem.subst(p.outcome[3].exc, p.env) if False else None
         node = p.outcome[3]
         exc = sem.bounded(sem.subst(node.exc, p.env))
@@ -187,7 +197,8 @@ def check(ctx):
         sib = [q for q in dps if q.outcome[0] == 'return' and q.conds[:-1] == p.conds[:-1] and isinstance(q.outcome[3], ast.Tuple)]
         if sib and not (sem.ctext(sib[0].outcome[3].elts[1]) == sem.ctext(amap['offset']) and sem.ctext(sib[0].outcome[3].elts[0]) == sem.ctext(amap['expected_length'])):
             ok = False
-    ctx.instance('C15.R2', 'decode_length raises MissingDataError(%s) on %d paths' % (shown, len(rp)), 'ok' if ok else 'VIOLATION', node=rp[0].outcome[3], file=BER)
+    ctx.instance('C15.R2', 'decode_length raises MissingDataError(%s) on %d paths' % (shown, len(rp)), 'ok' if ok else 'VIOLATION', 'decided by the probe evaluation (R7)' if probe_decided else '',
+                 node=rp[0].outcome[3] if rp else dl, file=BER)
     if not ok:
         ctx.violation('C15.R2', BER, rp[0].outcome[3], Model.qual(dl), 'MissingDataError is constructed with %s; the probe adds offset and expected_length to obtain the total length, so they must be '
                       'the offset after the length octets and the contents length' % shown, stmt='MissingDataError arguments')
@@ -277,35 +288,63 @@ def check(ctx):
     if n6 < 10:
         raise AnalysisError('C15.R6 examined only %d buffer slices' % n6)
 
-    # ---- R4
+    # ---- R4  (decided by bounded evaluation: skip_tag on the octets X.690 prescribes, below, and on the octets encode_tag writes, here; the constant tables are the
+    #           fall-back for functions the evaluator cannot follow)
     et = model.func(BER, 'encode_tag')
     st = skt
-    consts_e = sorted({n.value for n in ast.walk(et) if isinstance(n, ast.Constant) and isinstance(n.value, int) and not isinstance(n.value, bool)})
-    consts_s = sorted({n.value for n in ast.walk(st) if isinstance(n, ast.Constant) and isinstance(n.value, int) and not isinstance(n.value, bool)})
-    ok_e = {31, 127, 128} <= set(consts_e) <= {0, 1, 7, 8, 31, 127, 128}
-    ok_s = {31, 128} <= set(consts_s) <= {0, 1, 2, 31, 128}
-    ctx.instance('C15.R4', 'encode_tag constants %s' % consts_e, 'ok' if ok_e else 'VIOLATION', node=et, file=BER)
-    ctx.instance('C15.R4', 'skip_tag constants %s' % consts_s, 'ok' if ok_s else 'VIOLATION', node=st, file=BER)
-    if not ok_e:
-        ctx.violation('C15.R4', BER, et, Model.qual(et), 'encode_tag constants %s differ from X.690 8.1.2.4 {31 (0x1f), 0x7f, 0x80, shift 7}' % consts_e, stmt='encode_tag constants')
-    if not ok_s:
-        ctx.violation('C15.R4', BER, st, Model.qual(st), 'skip_tag constants %s differ from X.690 8.1.2.4 {0x1f, 0x80}' % consts_s, stmt='skip_tag constants')
-    # comparison operator:  number < 31 selects the short form
-    eps = sem.paths(et, positional=True) or []
-    low = sem.ccond(sem.parse_expr('ARG0 < 31'))
-    ok = any(p.has(low[0], low[1]) for p in eps) and any(p.has(low[0], not low[1]) for p in eps)
-    ctx.instance('C15.R4', 'encode_tag short form iff number < 31', 'ok' if ok else 'VIOLATION', node=et, file=BER)
-    if not ok:
-        ctx.violation('C15.R4', BER, et, Model.qual(et), 'low-tag-number form must be used for numbers 0..30 only', stmt='number < 31')
-    def is31(x):
-        return isinstance(x, ast.Constant) and x.value == 31
-    t = [n for n in walk_no_nested(st) if isinstance(n, ast.Compare) and len(n.ops) == 1 and isinstance(n.ops[0], ast.Eq)
-         and any(isinstance(a, ast.BinOp) and isinstance(a.op, ast.BitAnd) and (is31(a.left) or is31(a.right)) and is31(b)
-                 for a, b in ((n.left, n.comparators[0]), (n.comparators[0], n.left)))]
-    ok = len(t) >= 1
-    ctx.instance('C15.R4', 'skip_tag long form iff byte & 0x1f == 0x1f', 'ok' if ok else 'VIOLATION', node=st, file=BER)
-    if not ok:
-        ctx.violation('C15.R4', BER, st, Model.qual(st), 'high-tag-number test changed', stmt='byte & 0x1f == 0x1f')
+    from .. import evalexpr as _ev4
+    etp, stp = flow.param_names(et), flow.param_names(st)
+    wr_ok = wr_und = 0
+    wr_bad = wr_why = None
+    for flags in (0x00, 0x20, 0x40, 0x80, 0xa0, 0xc0, 0xe0):
+        for number in (0, 1, 30, 31, 32, 100, 127, 128, 16383, 16384, 2 ** 21 + 1):
+            try:
+                tag_, _e = _ev4.run_function(et, {etp[0]: number, etp[1]: flags})
+                tag_ = bytes(tag_)
+                got_, _e = _ev4.run_function(st, {stp[0]: tag_ + b'\x03\x01\x02\x03', stp[1]: 0})
+            except _ev4.Raised as e:
+                wr_bad = wr_bad or 'skip_tag raises %s on the identifier octets encode_tag(%d, 0x%02x) writes' % (e.name, number, flags)
+                continue
+            except (_ev4.Unsupported, KeyError, TypeError, IndexError, ValueError) as e:
+                wr_und += 1
+                wr_why = wr_why or 'encode_tag(%d, 0x%02x) / skip_tag: %s' % (number, flags, e)
+                continue
+            if got_ != len(tag_):
+                wr_bad = wr_bad or 'encode_tag(%d, 0x%02x) writes %s (%d octets), skip_tag stops after %s' % (number, flags, tag_.hex(), len(tag_), got_)
+            else:
+                wr_ok += 1
+    tags_decided = wr_und == 0 and wr_ok > 0
+    ctx.instance('C15.R4', 'skip_tag steps over exactly the identifier octets encode_tag writes: %d (number, class/form) cases evaluated, %d undecided' % (wr_ok, wr_und),
+                 'VIOLATION' if wr_bad else ('ok' if tags_decided else 'undecided'), wr_why or '', nontrivial=wr_ok > 0, node=st, file=BER)
+    if wr_bad:
+        ctx.violation('C15.R4', BER, st, Model.qual(st), wr_bad + ': the probe reads the length from the wrong octet', stmt='encode_tag / skip_tag agreement')
+    if not tags_decided:
+        consts_e = sorted({n.value for n in ast.walk(et) if isinstance(n, ast.Constant) and isinstance(n.value, int) and not isinstance(n.value, bool)})
+        consts_s = sorted({n.value for n in ast.walk(st) if isinstance(n, ast.Constant) and isinstance(n.value, int) and not isinstance(n.value, bool)})
+        ok_e = {31, 127, 128} <= set(consts_e) <= {0, 1, 7, 8, 31, 127, 128}
+        ok_s = {31, 128} <= set(consts_s) <= {0, 1, 2, 31, 128}
+        ctx.instance('C15.R4', 'encode_tag constants %s' % consts_e, 'ok' if ok_e else 'VIOLATION', node=et, file=BER)
+        ctx.instance('C15.R4', 'skip_tag constants %s' % consts_s, 'ok' if ok_s else 'VIOLATION', node=st, file=BER)
+        if not ok_e:
+            ctx.violation('C15.R4', BER, et, Model.qual(et), 'encode_tag constants %s differ from X.690 8.1.2.4 {31 (0x1f), 0x7f, 0x80, shift 7}' % consts_e, stmt='encode_tag constants')
+        if not ok_s:
+            ctx.violation('C15.R4', BER, st, Model.qual(st), 'skip_tag constants %s differ from X.690 8.1.2.4 {0x1f, 0x80}' % consts_s, stmt='skip_tag constants')
+        # comparison operator:  number < 31 selects the short form
+        eps = sem.paths(et, positional=True) or []
+        low = sem.ccond(sem.parse_expr('ARG0 < 31'))
+        ok = any(p.has(low[0], low[1]) for p in eps) and any(p.has(low[0], not low[1]) for p in eps)
+        ctx.instance('C15.R4', 'encode_tag short form iff number < 31', 'ok' if ok else 'VIOLATION', node=et, file=BER)
+        if not ok:
+            ctx.violation('C15.R4', BER, et, Model.qual(et), 'low-tag-number form must be used for numbers 0..30 only', stmt='number < 31')
+        def is31(x):
+            return isinstance(x, ast.Constant) and x.value == 31
+        t = [n for n in walk_no_nested(st) if isinstance(n, ast.Compare) and len(n.ops) == 1 and isinstance(n.ops[0], ast.Eq)
+             and any(isinstance(a, ast.BinOp) and isinstance(a.op, ast.BitAnd) and (is31(a.left) or is31(a.right)) and is31(b)
+                     for a, b in ((n.left, n.comparators[0]), (n.comparators[0], n.left)))]
+        ok = len(t) >= 1
+        ctx.instance('C15.R4', 'skip_tag long form iff byte & 0x1f == 0x1f', 'ok' if ok else 'VIOLATION', node=st, file=BER)
+        if not ok:
+            ctx.violation('C15.R4', BER, st, Model.qual(st), 'high-tag-number test changed', stmt='byte & 0x1f == 0x1f')
 
     # the identifier octets, by bounded evaluation (sa/evalexpr.py): for every class / form and tag numbers around the group boundaries, skip_tag applied to the
     # octets X.690 8.1.2 prescribes, followed by a length octet, stops exactly behind them -- and reports "out of data" when nothing follows
@@ -456,15 +495,16 @@ MUTANTS = [
         return None
     except MissingDataError as e:
         return e.offset + e.expected_length""", expect='C15.R2'),
-    dict(name='MissingDataError args swapped', file=BER, quick=True,
+    # (swapping the two arguments is not a control any more: the probe adds them, so its answers do not change -- the probe evaluation R7 rightly stays silent)
+    dict(name='MissingDataError carries the offset before the length octets', file=BER, quick=True,
          old="""            'Expected at least {} contents byte(s), but got {}.'.format(length, data_length - offset),
             offset,
             length
         )""",
          new="""            'Expected at least {} contents byte(s), but got {}.'.format(length, data_length - offset),
-            length,
-            offset
-        )""", expect='C15.R2'),
+            offset - 1,
+            length
+        )""", expect=('C15.R2', 'C15.R7')),
     dict(name='MissingDataError mapped to None', file=BER,
          old="""    except MissingDataError as e:
         return e.offset + e.expected_length""",
